@@ -117,7 +117,7 @@ ARRAY_FAMILIES = [
     ('[x+i,y]', lambda x, y: np.array([complex(x, 1), y])),
     ('[3*x,4*x,0,y]', lambda x, y: np.array([3 * x, 4 * x, 0.0, y])),
 ]
-TOLERANCES = [0, 1e-9, 0.01, 2, '0%', '0.01%', '5%', '10%', '25%']
+TOLERANCES = [0, 1e-9, 0.01, 2, '0%', '0.01%', '5%', '10%', '25%', '0.00001%', '1e-6%', '0.0004%']
 RATIOS = [0.0, 0.5, 0.99, 1.01, 2.0, 100.0]
 
 
